@@ -29,8 +29,10 @@ const FILE_NAMES: &[&str] = &[
     ".h.typ", ".typ", "atyp", "x.typ~", "UPPER.Typ", "z.typ",
     // names that are not valid UTF-8 (U+F7xx stands for the raw byte 0xxx, see util::path_encode)
     "r\u{f7e9}sum\u{f7e9}.typ", ".h\u{f7ff}.typ", "n\u{f7c3}.typ",
+    // decomposed umlaut, glob characters, blanks at the edges, names that collide when case is folded
+    "a.typ,b.typ", "x,y.typ", "lib.typ;z.typ", "a.typ:b.typ", "u\u{308}.typ", "we[i]rd*.typ", "q?.typ", " lead.typ", "trail .typ", "A.typ", "MAIN.typ", "a.TyP", "$HOME.typ", "~.typ", "%41.typ",
 ];
-const TYP_NAMES: &[&str] = &["a.typ", "b.typ", "main.typ", "c.typ", "lib.typ", "a.b.typ", "z.typ", "sp ace.typ"];
+const TYP_NAMES: &[&str] = &["a.typ", "b.typ", "main.typ", "c.typ", "lib.typ", "a.b.typ", "z.typ", "sp ace.typ", "A.typ", "MAIN.typ"];
 const DIR_NAMES: &[&str] = &[
     "sub", "chapters", "nested", "a b", ".git", ".cache", "x.typ", "\u{fc}d", "d1", "d2", ".hidden", "typ", "d\u{f7fe}", ".\u{f7ff}x",
 ];
@@ -172,7 +174,21 @@ impl<'a> Docs<'a> {
                 cfg.reorder = false;
                 let mut s = String::new();
                 for k in 0..self.rng.range(1, 3) {
-                    let mut names: Vec<String> = (0..self.rng.range(2, 6)).map(|j| format!("{}{}zq{}x{}", self.rng.pick(&["b", "a", "zz", "m", "c"]), j, self.seed % 99991, self.counter + k as u64)).collect();
+                    let mut names: Vec<String> = if self.rng.chance(0.35) {
+                        // identifiers outside ASCII whose encodings share their lead byte: after
+                        // reordering, input and output first differ in the middle of a character
+                        const CYR: &[&str] = &["\u{432}", "\u{431}", "\u{430}", "\u{433}", "\u{434}"];
+                        const CJK: &[&str] = &["\u{540d}", "\u{524d}", "\u{5b57}", "\u{5f0f}"];
+                        const GRK: &[&str] = &["\u{3b2}", "\u{3b1}", "\u{3b4}", "\u{3b3}"];
+                        let pools: [&[&str]; 3] = [CYR, CJK, GRK];
+                        let pool: &[&str] = pools[self.rng.below(3)];
+                        let mut v: Vec<String> = pool.iter().map(|x| x.to_string()).collect();
+                        self.rng.shuffle(&mut v);
+                        v.truncate(self.rng.range(2, pool.len()));
+                        v
+                    } else {
+                        (0..self.rng.range(2, 6)).map(|j| format!("{}{}zq{}x{}", self.rng.pick(&["b", "a", "zz", "m", "c"]), j, self.seed % 99991, self.counter + k as u64)).collect()
+                    };
                     self.rng.shuffle(&mut names);
                     s.push_str(&format!("#import \"m{}.typ\": {}\n", k, names.join(", ")));
                 }
@@ -201,7 +217,7 @@ impl<'a> Docs<'a> {
                 // exact sizes at and around buffer boundaries, with a 4-byte character straddling
                 // the boundary: padding lives in a trailing line comment, so the class of the
                 // document (formatted / not) is whatever the library says
-                let b = *self.rng.pick(&[512usize, 1024, 4096, 8192, 16384, 32768, 65536, 131072]);
+                let b = if self.rng.chance(0.4) { 4096 * self.rng.range(1, 33) } else { *self.rng.pick(&[512usize, 1024, 4096, 8192, 16384, 32768, 65536, 131072]) };
                 let b = b.min(self.params.max_large.max(8192));
                 let head = if self.rng.chance(0.5) { self.formatted(self.main_cfg) } else { self.fresh_doc(0.5) };
                 let mut s = head;
@@ -663,8 +679,17 @@ pub fn gen_case(seed: u64, profile: &str, params: &GenParams, oracle: &mut Oracl
                 q.readdir = inv.readdir.clone();
                 if pattern == 4 {
                     // same files / directory, other style options: state kept from the previous
-                    // invocation (a cache, a stamp file) must not leak into this one
-                    q.style = gen_cfg(&mut rng);
+                    // invocation (a cache, a stamp file) must not leak into this one. Mostly exactly
+                    // one dimension changes (a key that forgets one option is then decisive).
+                    if rng.chance(0.65) {
+                        match rng.below(3) {
+                            0 => q.style.reorder = !q.style.reorder,
+                            1 => q.style.column = Some(if rng.chance(0.5) { *rng.pick(special_columns()) } else { rng.range(0, 400) }),
+                            _ => q.style.tab = Some(*rng.pick(&[0, 1, 2, 3, 4, 8, 16])),
+                        }
+                    } else {
+                        q.style = gen_cfg(&mut rng);
+                    }
                 }
                 q.shape = if pattern == 3 {
                     // the identical invocation again (a second run is a no-op; a third one too)
